@@ -12,12 +12,12 @@ RULE = ("cases = the call histories of C08 extended with singular steps (a colum
 ASSUMPTIONS = ["allocations made by the library while the harness is inside a library call are attributed to the library (flag set around calls)"]
 BUDGET = {
     "quick": {"examples": 9000, "workers": 14, "time_budget": 90, "variants": ["asan"]},
-    "thorough": {"examples": 100000, "workers": 14, "time_budget": 1300, "variants": ["asan"]},
+    "thorough": {"examples": 100000, "workers": 14, "time_budget": 1300, "variants": ["asan", "long"], "variant_share": {"asan": 0.8, "long": 0.2}},
 }
 
 
 def strategy(tier):
-    return hist_case(nmax=24 if tier == "quick" else 60, maxlen=7 if tier == "quick" else 16, allow_other=True, allow_singular=True)
+    return hist_case(nmax=24 if tier == "quick" else 60, maxlen=7 if tier == "quick" else 16, allow_other=True, allow_singular=True, allow_tune=True)
 
 
 def nontrivial(case, v):
